@@ -261,3 +261,86 @@ def model_line(case, obs, dflt, poll_ticks=H.P_TICKS_DEFAULT):
         req_id = next((w["id"] for w in rec["writes"] if w["method"] == OPS[spec["op"]]["method"] and w["id"] is not None), None)
         calls.append({"init": cfg(init_id, dflt["initialize"]), "req": cfg(req_id, dflt[spec["op"]]), "gap": spec.get("gap", 0)})
     return {"m": "await", "client": True, "initialized": False, "supported": dflt["supported"], "stream": obs["stream"], "calls": calls}
+
+
+# ------------------------------------------------------------------ one connection, send_message
+def run_conn(case):
+    """consecutive `send_message` calls (caller-supplied ids, reuse allowed) on ONE stream pair whose
+    read side receives `case["stream"]` = [[absolute tick, event]...] whatever the calls do"""
+    import anyio
+    from chuk_mcp.protocol.messages.send_message import send_message, CancelledError
+    from chuk_mcp.protocol.types.errors import RetryableError, NonRetryableError
+
+    out = []
+    errors = []
+
+    async def main():
+        loop = __import__("asyncio").get_running_loop()
+        in_send, in_recv = anyio.create_memory_object_stream(math.inf)
+        out_send, out_recv = anyio.create_memory_object_stream(math.inf)
+
+        def inject(ev):
+            def f():
+                try:
+                    in_send.send_nowait(H.build_event(ev, {"id": None, "tok": None}))
+                except Exception as ex:  # noqa
+                    errors.append(repr(ex))
+            return f
+        for a, ev in case["stream"]:
+            loop.at(a, inject(ev))
+        restore = H._debug_logging() if case.get("debug") else None
+        try:
+            for r in case["reqs"]:
+                rec = {"start": loop.ticks}
+                rid = H._idval(r["id"], {})
+                try:
+                    guard = (r["D"] + 4 * H.P_TICKS_DEFAULT) * vloop.TICK + 1.0
+                    res = _HUNG
+                    with anyio.move_on_after(guard):
+                        res = await send_message(in_recv, out_send, r.get("method", "tools/list"), None,
+                                                 timeout=r["D"] * vloop.TICK, message_id=rid)
+                    if res is _HUNG:
+                        raise _Hung()
+                    rec["outcome"] = "returned"
+                    rec["p"] = res
+                except _Hung:
+                    rec["outcome"] = "hung"
+                except TimeoutError:
+                    rec["outcome"] = "timeout"
+                except CancelledError:
+                    rec["outcome"] = "cancelled"
+                except (RetryableError, NonRetryableError) as ex:
+                    rec["outcome"] = "raised"
+                    rec["retryable"] = isinstance(ex, RetryableError)
+                    rec["code"] = ex.code
+                except Exception as ex:  # noqa
+                    rec["outcome"] = "exception"
+                    rec["exc"] = type(ex).__name__
+                    rec["text"] = str(ex)[:200]
+                rec["t"] = loop.ticks - rec["start"]
+                ws = []
+                while True:
+                    try:
+                        m = out_recv.receive_nowait()
+                    except Exception:
+                        break
+                    ws.append(H._plain(m.model_dump(exclude_none=True) if hasattr(m, "model_dump") else m))
+                rec["writes"] = ws
+                out.append(rec)
+                g = r.get("gap", 0)
+                if g:
+                    await anyio.sleep(g * vloop.TICK)
+        finally:
+            if restore is not None:
+                restore()
+
+    vloop.run(main, tie=case.get("tie", "events"))
+    return {"reqs": out, "harness_errors": errors}
+
+
+def conn_model_line(case, poll_ticks=H.P_TICKS_DEFAULT):
+    ctx = {"id": None, "tok": None}
+    reqs = [{"id": r["id"], "D": r["D"], "P": poll_ticks, "pre": False, "cancelAt": None, "token": None,
+             "eventsFirst": case.get("tie", "events") in ("events", "io"), "writer": "open", "ev": []} for r in case["reqs"]]
+    return {"m": "await", "conn": True, "stream": [[a, H.resolved_event(ev, ctx)] for a, ev in case["stream"]],
+            "reqs": reqs, "gaps": [r.get("gap", 0) for r in case["reqs"]]}
